@@ -109,20 +109,38 @@ def run(ctx):
             if ok2:
                 raise vlib.Infra("vacuous binding: corrupted trajectory accepted (%s)" % name)
         ctx.extra["binding_selftest"] = "decreasing likelihood rejected; lying hook rejected"
+        # vacuity: every scenario completed at least once without error, every twin relation was observed
+        per = {}
+        for r in runs:
+            e = per.setdefault(r["scenario"], [0, 0])
+            e[0] += 1
+            e[1] += 0 if r["error"] else 1
+        dead = sorted(k for k, v in per.items() if v[1] == 0)
+        if dead and len(runs) >= 100:
+            raise vlib.Infra("vacuity: scenarios that never completed without an error: %s" % dead)
+        twins = {}
+        for e in vlib.iter_ndjson(trace):
+            if e.get("e") == "twin":
+                twins[e["what"]] = twins.get(e["what"], 0) + 1
+        if len(runs) >= 100 and len(twins) < 3:
+            raise vlib.Infra("vacuity: twin relations observed: %s" % sorted(twins))
+        ctx.extra["scenarios"] = {k: {"runs": v[0], "without_error": v[1]} for k, v in sorted(per.items())}
+        ctx.extra["twin_relations_observed"] = twins
         iters = [r["events"] - 3 for r in runs]
         ctx.extra["iterations_per_trajectory"] = {"min": min(iters), "max": max(iters), "total": sum(iters)}
         if max(iters) < 5:
             raise vlib.Infra("vacuity: no trajectory with more than 4 iterations")
     ctx.extra["bounds"] = {"closed_form": {"MaxN": b["MaxN"], "Xs": [0, 1, 2, 5], "Ws": [1, 2, 3],
-                                           "families": ["normal", "exponential", "poisson", "geometric", "categorical", "vector-normal (2-d, grid 3x3)"],
-                                           "modes": ["weighted", "unweighted", "batch"], "bounds": "sigmaMin 1e-3 / 1.5, lambdaMax 100 / 0.5"},
-                           "em": {"trajectories": b["runs"], "scenarios": 13, "epsilon": [1e-8, 1e-4, 1e-2], "maxSteps": [-1, 1, 3, 8]}}
+                                           "families": ["normal", "exponential", "poisson", "geometric", "categorical", "negative binomial (r = 1, 7/2, 2/5)",
+                                                        "translation wrapper around normal", "vector-normal (2-d, grid 3x3)"],
+                                           "modes": ["weighted", "unweighted", "batch", "clone", "all log-weights shifted by -800 / +800 / -5000 (weighted), -800 (batch)"], "bounds": "sigmaMin 1e-3 / 1.5, lambdaMax 100 / 0.5"},
+                           "em": {"trajectories": b["runs"], "scenarios": 21, "epsilon": [1e-8, 1e-4, 1e-2], "maxSteps": [-1, 1, 3, 8]}}
     ctx.extra["estimator_runs"] = summ["estimator_runs"]
-    ctx.assumptions += ["numeric estimators (NumericEstimator, negative binomial) and logistic regression are not covered by the closed-form contract",
+    ctx.assumptions += ["NumericEstimator is not covered by the closed-form contract; logistic regression is covered by the stationarity events of EMTrace",
                         "the recomputed likelihood uses the distributions' own LogPdf (decided by C14/C15)"]
     return ctx.finish(
         rule="closed form: every data multiset of size <= MaxN over {0,1,2,5} x weights {1,2,3} (exhaustive), one case each, "
-             "x 5 families x up to 4 modes x bound settings; EM: one trajectory per (scenario, seed, epsilon, maxSteps)",
+             "x 7 families x up to 9 modes x bound settings; EM: one trajectory per (scenario, seed, epsilon, maxSteps)",
         evaluations=summ["estimator_runs"] + len(runs), distinct_nontrivial=summ["cases"] + len(runs), exhaustive=True)
 
 
